@@ -27,6 +27,9 @@ type c11Gen struct {
 	methodsIn             map[string][]string // scope path -> names of the methods declared there
 	allowSplitIndexField  bool // an IndexField outside the Scope(\) that declares its registers
 	noDeepChain           bool // no chains of deeply nested devices
+	allowHomonyms         bool // an unrelated device named like the target of a nested Scope directive
+	// ... also when that target is an object declared elsewhere under a path-prefixed name (F-C11g)
+	allowHomonymOfRelocated bool
 }
 
 var c11Predefined = []string{"_GPE", "_PR_", "_SB_", "_SI_", "_TZ_"}
@@ -322,7 +325,7 @@ func (g *c11Gen) transformObj(o amlObj, topOut *[]amlObj, atTop bool) []amlObj {
 	scopeAbs := o.Abs
 	var keep, after []amlObj
 	for _, ch := range o.Body {
-		movable := ch.K != "field" && ch.K != "indexfield" && ch.K != "opregion" && ch.K != "scope" && ch.Name.Carets == 0 && c11ScopeOfAbs(ch.Abs) == scopeAbs
+		movable := !ch.pin && ch.K != "field" && ch.K != "indexfield" && ch.K != "opregion" && ch.K != "scope" && ch.Name.Carets == 0 && c11ScopeOfAbs(ch.Abs) == scopeAbs
 		choice := rapid.IntRange(0, 9).Draw(g.t, "lexform")
 		switch {
 		case movable && choice == 0 && c11Hoistable(scopeAbs):
@@ -355,6 +358,39 @@ func (g *c11Gen) transformObj(o amlObj, topOut *[]amlObj, atTop bool) []amlObj {
 					leftover = rest
 				}
 			}
+			var inside []amlObj // Scope(<moved>) { Scope(<child>) { ... } }: part of a child container's contents, declared later
+			if g.allowHomonyms && mvContainer && c11Hoistable(moved.Abs) && rapid.IntRange(0, 2).Draw(g.t, "childleft") == 0 {
+				for ci := range moved.Body {
+					c := &moved.Body[ci]
+					if !(c.K == "device" || c.K == "thermal" || c.K == "processor" || c.K == "power") || len(c.Body) == 0 || c.Name.Carets != 0 || len(c.Name.Segs) != 1 {
+						continue
+					}
+					ok := true
+					for _, m := range c.Body {
+						if m.K == "field" || m.K == "indexfield" || m.K == "opregion" || m.K == "scope" {
+							ok = false
+						}
+					}
+					if !ok {
+						continue
+					}
+					k := rapid.IntRange(1, len(c.Body)).Draw(g.t, "childleftn")
+					rest := append([]amlObj{}, c.Body[len(c.Body)-k:]...)
+					c.Body = c.Body[:len(c.Body)-k]
+					c.pin = true // the child is declared inside the moved container itself
+					g.stats.scopeDirectives += 2
+					if rapid.Bool().Draw(g.t, "childhomonym") {
+						// an unrelated, empty device named like the child, in the block the
+						// directives are written in
+						level := c11ScopeOfAbs(scopeAbs)
+						inside = append(inside, amlObj{K: "device", Name: amlSeg(c.Name.last()), Abs: c11JoinPath(level, c.Name.last())})
+						g.stats.homonyms++
+					}
+					in := amlObj{K: "scope", Abs: c.Abs, W: g.width(), Name: amlSeg(c.Name.last()), Body: rest}
+					inside = append(inside, amlObj{K: "scope", Abs: moved.Abs, W: g.width(), Name: g.pathTo(moved.Abs, atTop), Body: []amlObj{in}})
+					break
+				}
+			}
 			decl := g.transformObj(moved, topOut, false)
 			// an absolute name resolves from anywhere: sometimes declare the object inside
 			// an unrelated predefined scope block (the parser then meets it in a different order)
@@ -364,8 +400,17 @@ func (g *c11Gen) transformObj(o amlObj, topOut *[]amlObj, atTop bool) []amlObj {
 				decl = []amlObj{{K: "scope", Abs: "\\" + pre, W: g.width(), Name: amlName{Root: true, Segs: []string{pre}}, Body: decl}}
 			}
 			after = append(after, decl...)
+			after = append(after, inside...)
 			if leftover != nil {
 				g.stats.scopeDirectives += 2
+				if g.allowHomonymOfRelocated && rapid.Bool().Draw(g.t, "homonym") {
+					// an unrelated, empty device of the same name in the block the directives are
+					// written in: the inner directive below names the moved container relative to
+					// the OUTER directive's target, not this one
+					level := c11ScopeOfAbs(scopeAbs)
+					after = append(after, amlObj{K: "device", Name: amlSeg(ch.Name.last()), Abs: c11JoinPath(level, ch.Name.last())})
+					g.stats.homonyms++
+				}
 				inner := amlObj{K: "scope", Abs: moved.Abs, W: g.width(), Name: amlSeg(ch.Name.last()), Body: leftover}
 				after = append(after, amlObj{K: "scope", Abs: scopeAbs, W: g.width(), Name: g.pathTo(scopeAbs, atTop), Body: []amlObj{inner}})
 			}
@@ -846,6 +891,22 @@ func (g *c11Gen) program() c11Case {
 	for ti := range c.Tables {
 		c11CollectSyms(c.Tables[ti], ti, &syms)
 	}
+	// objects that share their name with an unrelated object (the decoys of nested Scope
+	// directives) are not referenced from method bodies or packages: the expected binding of
+	// references is looked up by name
+	count := map[string]int{}
+	for _, sy := range syms {
+		if !sy.method {
+			count[sy.name]++
+		}
+	}
+	unique := syms[:0:0]
+	for _, sy := range syms {
+		if sy.method || count[sy.name] == 1 {
+			unique = append(unique, sy)
+		}
+	}
+	syms = unique
 	for ti := range c.Tables {
 		g.fillBodies(c.Tables[ti], ti, syms)
 	}
@@ -862,6 +923,8 @@ func TestVerifC11(t *testing.T) {
 			allowTermsAfterBlock:  !vlib.OpenFinding("F-C11e"),
 			allowRootScope:        true,
 			allowShadowing:        true,
+			allowHomonyms:         true,
+			allowHomonymOfRelocated: !vlib.OpenFinding("F-C11g"),
 			allowSplitIndexField:  !vlib.OpenFinding("F-C11f"),
 		}
 		c := g.program()
@@ -887,6 +950,7 @@ func TestVerifC11(t *testing.T) {
 		add(g.stats.rootScopes > 0, "scope-directive-naming-the-root")
 		add(g.stats.pkgRefs > 0, "package-element-naming-an-object")
 		add(g.stats.shadowed > 0, "method-shadowing-a-method-of-an-enclosing-scope")
+		add(g.stats.homonyms > 0, "homonym-of-a-nested-scope-directive's-target")
 		add(g.stats.deepChain > 0, "devices-nested-8-or-more-deep")
 		add(g.stats.deepChain >= 62, "devices-nested-62-or-more-deep")
 		labels = append(labels, fmt.Sprintf("tables=%d", g.stats.tables))
